@@ -787,9 +787,9 @@ def offsets_for(sz, rng, thorough):
     """octet offsets at which a write of sz octets is cut: all of them for a short line; for a long
     one the ends, the middle, both sides of every block boundary counted from either end, and a
     few seeded random ones"""
-    if sz <= 400:
+    if sz <= (400 if thorough else 260):
         return list(range(0, sz + 1)) if sz else [0]
-    ks = {0, 1, 2, sz // 2, sz - 2, sz - 1, sz}
+    ks = {0, 1, 2, 3, sz // 3, sz // 2, sz - 3, sz - 2, sz - 1, sz}
     for b in BLOCKS:
         for d in (-1, 0, 1):
             for k in (b + d, sz - b + d):
